@@ -262,9 +262,24 @@ class BaseVersion(object):
         # type: (Any) -> bool
         return self._compare(other) > 0
 
+    _re_hash_parts = re.compile(r"([^0-9]*)([0-9]*)")
+
     def __hash__(self):
         # type: () -> int
-        return hash(str(self))
+        # Versions that compare equal must have equal hashes ('1.0', '1.00'
+        # and '0:1.0-0' are all equal), so hash a normalised form: each part
+        # as (non-digit run, number) pairs without trailing empty pairs.
+        def normalise(part):
+            # type: (Optional[str]) -> Tuple[Tuple[str, int], ...]
+            pairs = [(nondigits, int(digits or "0")) for nondigits, digits
+                     in self._re_hash_parts.findall(part or "0")]
+            while pairs and pairs[-1] == ("", 0):
+                pairs.pop()
+            return tuple(pairs)
+
+        return hash((int(self.epoch or "0"),
+                     normalise(self.upstream_version),
+                     normalise(self.debian_revision)))
 
 
 class AptPkgVersion(BaseVersion):
